@@ -11,7 +11,8 @@
    Everything that other actors do (other steps' transactions, hash jobs, external writers) enters
    as environment events carrying the observed database rows. *)
 From Coq Require Import List NArith Bool.
-From SV Require Import lib.StampMap gen.GenFresh.
+From SV Require Import lib.StampMap.
+From SV Require Import gen.GenFresh.
 Import ListNotations.
 Open Scope N_scope.
 Open Scope bool_scope.
@@ -323,6 +324,7 @@ Inductive ev :=
 | ERow (f : N) (r : frow)                   (* another transaction changed the row of f (observed) *)
 | ECRow (st : N) (df : bool) (dc : N)       (* another transaction changed c's row (observed) *)
 | EBk (e : bev)                             (* stamp bookkeeping of another step *)
+| EDrain (b : bool)                         (* the draining flag set/cleared by another actor (observed) *)
 | ETry (t : N)                              (* dispatch attempt + start of execute_job *)
 | EAmend (paths : list N)
 | EEnd (t : N) (cmd_ok : bool).
@@ -333,6 +335,7 @@ Definition step (w : world) (e : ev) : world * result :=
   | ERow f r => (set_files w (upd (files w) f r), RNone)
   | ECRow st df dc => (set_crow w st df dc, RNone)
   | EBk b => (set_book w b, RNone)
+  | EDrain b => (set_draining w b, RNone)
   | ETry t => do_try w t
   | EAmend ps => do_amend w ps
   | EEnd t ok => do_end w t ok
